@@ -149,6 +149,10 @@ class NumericTable:
         self.defs = {}  # canonical name -> ("base", dim) | ("expr", Value, offset)
         self.ddims = {}
         self._memo = {}
+        self.groups = {}  # name -> {"using": [...], "units": [...]}
+        self.systems = {}  # name -> {"using": [...], "rules": [[new, old|None], ...]}
+        self.defaults = {}
+        self.toplevel = []  # units defined outside any group
 
     @classmethod
     def from_file(cls, path):
@@ -174,8 +178,28 @@ class NumericTable:
                 continue
             if line.startswith("@"):
                 block = line.split()[0].split("(")[0]
+                if block in ("@group", "@system"):
+                    head = line.split(None, 1)[1]
+                    bname, _, using = head.partition(" using ")
+                    cur = {"using": [x.strip() for x in using.split(",") if x.strip()]}
+                    if block == "@group":
+                        cur["units"] = []
+                        self.groups[bname.strip()] = cur
+                    else:
+                        cur["rules"] = []
+                        cur["using"] = cur["using"] or ["root"]
+                        self.systems[bname.strip()] = cur
+                    self._cur = cur
                 continue
-            if block in ("@system", "@context", "@defaults"):
+            if block == "@system":
+                new, _, old = line.partition(":")
+                self._cur["rules"].append([new.strip(), old.strip() or None])
+                continue
+            if block == "@defaults":
+                k, _, v = line.partition("=")
+                self.defaults[k.strip()] = v.strip()
+                continue
+            if block == "@context":
                 continue
             parts = [x.strip() for x in line.split("=")]
             name, value, rest = parts[0], parts[1], parts[2:]
@@ -192,6 +216,10 @@ class NumericTable:
             offset = parse_value(mods["offset"]).f if "offset" in mods else 0.0
             mult = "logbase" not in mods and offset == 0.0
             self.names.add_unit(name, sym, rest[1:], mult=mult, delta="logbase" not in mods)
+            if block == "@group":
+                self._cur["units"].append(name)
+            else:
+                self.toplevel.append(name)
             main = main.strip()
             if main.startswith("["):
                 self.defs[name] = ("base", parse_dim(main))
@@ -245,3 +273,83 @@ class NumericTable:
 def parse_dim(s):
     v = parse_value(s.replace("[", " DIM_").replace("]", "_MID "))
     return {"[" + k[4:-4] + "]": e for k, e in v.u.items()}
+
+
+class DefaultSystemsModel:
+    """Groups, systems and base-unit substitution of a definition file, by own algebra."""
+
+    def __init__(self, table: NumericTable):
+        self.t = table
+        self.groups = {"root": {"units": set(table.toplevel), "using": set(table.groups)}}
+        for g, d in table.groups.items():
+            self.groups[g] = {"units": set(d["units"]), "using": set(d["using"])}
+            self.groups["root"]["units"] |= set(d["units"])
+        dg = table.defaults.get("group")
+        if dg:
+            grouped = set()
+            for g in table.groups:
+                grouped |= self.members(g)
+            self.groups.setdefault(dg, {"units": set(), "using": set()})
+            self.groups["root"]["using"].add(dg)
+            self.groups[dg]["units"] |= self.groups["root"]["units"] - grouped
+        self.systems = table.systems
+
+    def members(self, g, seen=None):
+        seen = seen or set()
+        if g in seen or g not in self.groups:
+            return set()
+        seen.add(g)
+        out = set(self.groups[g]["units"])
+        for h in self.groups[g]["using"]:
+            out |= self.members(h, seen)
+        return out
+
+    def sys_members(self, s):
+        out = set()
+        for g in self.systems[s]["using"]:
+            out |= self.members(g)
+        return out
+
+    def canonical(self, spelled):
+        pn, un = sorted(self.t.names.readings(spelled))[0]
+        return pn, un
+
+    def root_of_spelled(self, spelled):
+        pn, un = self.canonical(spelled)
+        f, dims, roots = self.t.root(un)
+        if pn:
+            f = f * self.t.names.prefixes[pn]["factor"]
+        return f, roots
+
+    def substitution(self, s):
+        out = {}
+        for new, old in self.systems[s]["rules"]:
+            _, roots = self.root_of_spelled(new)
+            pn, un = self.canonical(new)
+            newname = pn + un
+            if old is None:
+                (old, a), = roots.items()
+            a = roots[old]
+            m = {newname: 1.0 / a}
+            for o, b in roots.items():
+                if o != old:
+                    m[o] = -b / a
+            out[old] = m
+        return out
+
+    def expected_base(self, name, s):
+        """(factor, {unit: exponent}) with 1 name == factor * units in the base units of system s."""
+        f, dims, roots = self.t.root(name)
+        if s is None:
+            return f, dict(roots)
+        sub = self.substitution(s)
+        dest = {}
+        for r, e in roots.items():
+            for k, x in (sub[r].items() if r in sub else [(r, 1.0)]):
+                dest[k] = dest.get(k, 0.0) + x * e
+        dest = {k: v for k, v in dest.items() if abs(v) > 1e-12}
+        fd = 1.0
+        for k, e in dest.items():
+            kf, _ = self.root_of_spelled(k)
+            fd *= kf ** e
+        return f / fd, dest
